@@ -11,9 +11,9 @@ import (
 )
 
 func sortOperator(d *dataTreeNavigator, context Context, expressionNode *ExpressionNode) (Context, error) {
+	// sort is sort_by(.): on a node of its own, the parsed expression may be evaluated by others at the same time
 	selfExpression := &ExpressionNode{Operation: &Operation{OperationType: selfReferenceOpType}}
-	expressionNode.RHS = selfExpression
-	return sortByOperator(d, context, expressionNode)
+	return sortByOperator(d, context, &ExpressionNode{Operation: expressionNode.Operation, LHS: expressionNode.LHS, RHS: selfExpression})
 }
 
 // context represents the current matching nodes in the expression pipeline
